@@ -158,6 +158,7 @@ T(memcmp16_s) { OUTI; r->rc = _memcmp16_s_chk(DP(c), MN(c->dmax, 2), SP(c), MN(c
 T(memcmp32_s) { OUTI; r->rc = _memcmp32_s_chk(DP(c), MN(c->dmax, 4), SP(c), MN(c->slen, 4), op, B(c->dbos, 4), B(c->sbos, 4)); FINI; }
 T(wmemcmp_s) { OUTI; r->rc = _wmemcmp_s_chk(DP(c), MN(c->dmax, 4), SP(c), MN(c->slen, 4), op, B(c->dbos, 4), B(c->sbos, 4)); FINI; }
 T(wcscmp_s) { OUTI; r->rc = _wcscmp_s_chk(DP(c), SZ(c->dmax, WSTRMAX), SP(c), SZ(c->slen, WSTRMAX), op, B(c->dbos, 4), B(c->sbos, 4)); FINI; }
+T(wcsicmp_s) { OUTI; r->rc = _wcsicmp_s_chk(DP(c), SZ(c->dmax, WSTRMAX), SP(c), SZ(c->slen, WSTRMAX), op, B(c->dbos, 4), B(c->sbos, 4)); FINI; }
 T(wcsncmp_s) { OUTI; r->rc = _wcsncmp_s_chk(DP(c), SZ(c->dmax, WSTRMAX), SP(c), SZ(c->slen, WSTRMAX), SZ(c->n, WSTRMAX), op, B(c->dbos, 4), B(c->sbos, 4)); FINI; }
 T(wcsstr_s) { wchar_t *o = (wchar_t *)h_untouched; wchar_t **op = (c->flags & 1) ? NULL : &o;
     r->rc = _wcsstr_s_chk(DP(c), SZ(c->dmax, WSTRMAX), SP(c), SZ(c->slen, WSTRMAX), op, B(c->dbos, 4), B(c->sbos, 4)); FINP; }
@@ -182,7 +183,7 @@ static const struct { const char *name; thunk_t fn; } TAB[] = {
     E(strisalphanumeric_s), E(strisascii_s), E(strisdigit_s), E(strishex_s), E(strislowercase_s),
     E(strismixedcase_s), E(strispassword_s), E(strisuppercase_s),
     E(memchr_s), E(memrchr_s), E(memcmp_s), E(memcmp16_s), E(memcmp32_s), E(wmemcmp_s),
-    E(wcscmp_s), E(wcsncmp_s), E(wcsstr_s), E(timingsafe_bcmp), E(timingsafe_memcmp),
+    E(wcscmp_s), E(wcsicmp_s), E(wcsncmp_s), E(wcsstr_s), E(timingsafe_bcmp), E(timingsafe_memcmp),
 };
 
 static thunk_t lookup(const char *n) {
@@ -246,7 +247,7 @@ int main(int argc, char **argv) {
         r.rc = -9999;
         h_n = 0;
         h_fault_kind = 0;
-        errno = 0;
+        errno = H_ERRNO_PRE(c.id);
         /* progress marker so that a hard crash can be attributed by the driver */
         fprintf(out, "#%ld\n", c.id);
         fflush(out);
